@@ -1050,3 +1050,11 @@ V("shaving-counters-branchless", "break", ["C15", "C17"], SH, None, None, "the t
 V("affine-geq-negates-parameters", "break", ["C01", "C07", "C08"], P + "affine_geq_propagator.py", "    domain_sum_min = domain_sum_max = parameters[-1]\n",
   "    parameters *= -1\n    parameters *= -1\n    domain_sum_min = domain_sum_max = parameters[-1]\n", "the parameters array (a view of the problem's table) updated in place", "compute_domains_affine_geq",
   expect_rule="R-PROP-EFFECTS")
+# ---- R-POSTED-KEPT (round 6, C02-x3 / C07-x3 / C13-x1)
+V("add-propagator-skips-some", "break", ["C01", "C02", "C07", "C13"], PB, "        self.propagators.append(propagator)\n        self.propagator_nb = len(self.propagators)\n",
+  "        if len(propagator[0]) > 0:\n            self.propagators.append(propagator)\n        self.propagator_nb = len(self.propagators)\n",
+  "a constraint is recorded only under a condition", "Problem.add_propagator", expect_rule="R-POSTED-KEPT")
+V("init-filters-constraints", "break", ["C01", "C02", "C07", "C13"], PB, "        self.propagators.sort(", "        self.propagators = [p for p in self.propagators if len(p[0]) > 1]\n        self.propagators.sort(",
+  "init() rewrites the list of constraints through a filter", "Problem.init", expect_rule="R-POSTED-KEPT")
+V("add-propagators-one-by-one", "neutral", ["C01", "C02", "C07", "C13", "C15"], PB, "        self.propagators.extend(propagators)\n",
+  "        for propagator in propagators:\n            self.propagators.append(propagator)\n", "extend written as a loop of appends")
